@@ -313,9 +313,77 @@ def main():
         tasks.append(('keys', t_keys))
         chk.bounds.append('NewPrivateKeyFromScalar: toy curve (43,31), all d; public point, cached encoding, separation from the caller-owned scalar')
 
+    # ---------------------------------------------------------------- 4. end to end at coordinate level on a toy curve
+    # (coordinate-level code inside the fixed-base routines - an inline normalisation, a shortcut on Z, a hand-rolled copy - has
+    #  no image in the abstract group; here the whole routine, point formulas and lookups included, runs on F_43 coordinates)
+    def t_coord(fn, sym_pos, seed, prior, tail=1):
+        from . import toy as T, toycoord as TC
+        import random
+        toy = T.get_toy(43, 31)
+        width = 4 if fn == 'ScalarBaseMult' else 8
+
+        def task(sub):
+            def h(ctx):
+                m, alg = TC.machine(prog, ctx, gl, toy)
+                TC.install_generator_tables(m, toy)
+                m.unwind = 80
+                rng = random.Random(seed)
+                # an affine table cannot hold the identity: entries (j+1)*256^i*G' with 31 | j+1 do not exist on the toy curve (on
+                # secp256k1 no entry is the identity: (j+1)*256^i < n), so byte values 31, 62, ... are outside the bound
+                fix = (lambda j, v: v + 1 if (v and v % toy.n == 0) else v) if width == 8 else None
+                limbs, wins = TC.windowed_scalar('s', sym_pos, width, rng, tail=tail, fix=fix)
+                if width == 8:
+                    for w in wins:
+                        if isinstance(w, tm.T):
+                            ctx.assume(tm.bor(tm.eq(w, 0, 8), tm.bnot(tm.eq(tm.bv('urem', tm.zext(w, T.W), toy.n, T.W), 0, T.W))))
+                s = TC.new_scalar(m, limbs)
+                if prior == 'fresh':
+                    v = X.Ptr(m.new_obj(prog.tid_by_str[MOD + '.Point'], label='v (zero value)'), ())
+                else:
+                    k0, l0 = tm.var('k0', T.W), tm.var('lam0', T.W)
+                    ctx.assume(tm.ult(k0, toy.n, T.W))
+                    ctx.assume(tm.band(tm.bnot(tm.eq(l0, 0, T.W)), tm.ult(l0, toy.p, T.W)))
+                    v = X.Ptr(TC.point(m, alg, toy, 'v', k0, l0), ())
+                r = m.call(PT + fn, [v, s])
+                sub.note_machine(m)
+                want = TC.window_sum_mod(toy, wins, width)
+                valid, k = TC.index_of(alg, toy, v.obj)
+                ctx.check(r.same(v), 'returns-receiver')
+                ctx.check(tm.eq(v.obj.tree[4], True, 0), 'result-flagged-valid')
+                ctx.check(valid, 'bv:result-is-a-valid-projective-point')
+                ctx.check(tm.eq(k, want, T.W), 'bv:result=s*G')
+                return 'ok'
+            lbl = 'coord/F_43/%s[sym windows %s, seed %d, receiver %s]' % (fn, ','.join(map(str, sorted(sym_pos))), seed, prior)
+            paths = sub.explore(lbl, h, mode='bv', timeout=600, max_paths=400)
+            sub.add(lbl + '/witness', [], any(p.outcome == 'ok' for p in paths))
+        return task
+    if not only or 'coord' in only:
+        grids = [((0,), 1, 'fresh'), ((0, 1), 2, 'any'), ((63,), 3, 'any'), ((5, 40), 4, 'fresh'), ((0, 31, 62), 5, 'any')]
+        if chk.thorough:
+            grids += [((a, b), 10 + a, 'any') for a in range(0, 64, 9) for b in (a + 1, 63 - a) if b != a and 0 <= b < 64]
+        for sp, seed, prior in grids:
+            tasks.append(('coord', t_coord('ScalarBaseMult', set(sp), seed + chk.seed, prior)))
+        vgrids = [((0,), 1, 'fresh'), ((31,), 2, 'any'), ((17,), 3, 'any')]
+        if chk.thorough:
+            vgrids += [((3, 17), 3, 'any')] + [((a, 31 - a), 20 + a, 'any') for a in range(0, 16, 3)]
+        for sp, seed, prior in vgrids:
+            tasks.append(('coord', t_coord('scalarBaseMultVartime', set(sp), seed + chk.seed, prior)))
+        chk.summaries.update(TC_SUMMARY())
+        chk.bounds.append('coordinate level, toy curve y^2=x^3+7 over F_43 (order 31): ScalarBaseMult / scalarBaseMultVartime executed end to end (real point '
+                          'formulas, lookups, table casts) on 256-bit window strings with 1..3 symbolic windows (every value of each) at the listed positions and '
+                          'the other windows concrete (seeded, ~30% zero); receiver fresh (zero value) or any valid point in any representation; '
+                          'result must be a valid representative of (sum of windows) * G\' and flagged valid')
+        chk.outside.append('coordinate level: more than 3 simultaneously symbolic windows; byte windows that are non-zero multiples of 31 in the vartime routine '
+                           '(their toy table entry would be the identity, which an affine table cannot hold; no such entry exists on secp256k1)')
+
     chk.run_tasks(tasks)
     chk.discharge()
     chk.finish()
+
+
+def TC_SUMMARY():
+    from . import toycoord as TC
+    return TC.SUMMARY
 
 
 if __name__ == '__main__':
